@@ -106,6 +106,15 @@ Theorem C09_match_unexpandable :
     scope0 [] (fst (translate_code (EMatch s arms) k)) = Some (Unbound "code_match").
 Proof. exact match_unexpandable. Qed.
 
+(* REFUTED part (finding F20): the record pattern of a quoted `let {a = x, b = y} = r` is replaced by its first field
+   name: the generated code is `let a = r` and x, y are no longer bound *)
+Theorem C09_record_pattern_refuted :
+  let p := PRecord [("a", PSingle "x"); ("b", PSingle "y")] in
+  let e := ELet p ty_unknown (EVar "r") (Some (EVar "x")) in
+  pat_binders p = ["x"; "y"] /\
+  expand 1 0 (EBracket e) = Ok (ELet (PSingle "a") ty_unknown (EVar "r") (Some (EVar "x"))).
+Proof. exact record_pattern_lost. Qed.
+
 (* the hypotheses are satisfiable: a quotation in normal form with stable literals, and one with an escape *)
 Example C09_example_identity :
   let e := ELet (PSingle "t") ty_unknown (EApply (EVar "add") [EVar "x"; ELit (LFloat float_one)])
